@@ -24,7 +24,7 @@ META = {
     "design_ref": "DESIGN.md §4 C06",
     "engine": "refmodel",
 }
-RULE = ("cases are operation histories over names {a,A,x-y,X-Y,x-Y,b} and 4 values; exhaustive by length "
+RULE = ("cases are operation histories over case-variant name families (a/A, x-y/X-Y/x-Y, x_id/X_Id/X_ID, p3p/P3P, a.b/A.B, x-a1b/X-A1B, b) and 4 values; exhaustive by length "
         "for the stated alphabets plus seeded random histories of length <= 8 (thorough <= 12); "
         "a history is non-trivial if it has >= 2 mutating ops on names equal modulo case; "
         "distinct by the op tuple")
@@ -33,7 +33,7 @@ ASSUMPTIONS = ["reference multimap model is correct", "single-threaded use",
                "mutating the list returned by get_list is outside the statement"]
 REQUIRED_COUNTERS = ["oracle_evals", "roundtrip_evals"]
 
-NAMES = ["a", "A", "x-y", "X-Y", "x-Y", "b"]
+NAMES = ["a", "A", "x-y", "X-Y", "x-Y", "b", "x_id", "X_Id", "X_ID", "p3p", "P3P", "a.b", "A.B", "x-a1b", "X-A1B"]
 VALUES = ["1", "v w", "", "é,z"]
 MUT = {"add", "set", "del", "pop", "setdefault", "update", "line", "cont"}
 
@@ -67,6 +67,9 @@ def op_alphabet(names, values, reduced=False):
 
 
 FULL = op_alphabet(["a", "A", "x-Y"], ["1", "v w"])
+# second exhaustive alphabet: case variants where an upper-case letter follows a non-letter other than '-'
+# (title-casing and per-word capitalisation disagree on these: X_Id / P3P / A.B)
+FULL2 = op_alphabet(["x_id", "X_Id", "P3P", "p3p"], ["1"])
 REDUCED = op_alphabet(["a", "A"], ["1", "2"], reduced=True)
 RAND = op_alphabet(NAMES, VALUES)
 
@@ -76,6 +79,8 @@ def shards(tier, seed):
     # exhaustive length<=3 over FULL, sharded by first op
     for i in range(len(FULL)):
         out.append({"kind": "exh", "alpha": "full", "first": i, "maxlen": 3})
+    for i in range(len(FULL2)):
+        out.append({"kind": "exh", "alpha": "full2", "first": i, "maxlen": 3})
     L = 4 if tier == "quick" else 5
     for i in range(len(REDUCED)):
         out.append({"kind": "exh", "alpha": "reduced", "first": i, "maxlen": L})
@@ -88,7 +93,7 @@ def shards(tier, seed):
 
 def gen_cases(spec):
     if spec["kind"] == "exh":
-        alpha = FULL if spec["alpha"] == "full" else REDUCED
+        alpha = {"full": FULL, "full2": FULL2}.get(spec["alpha"], REDUCED)
         first = alpha[spec["first"]]
         yield (first,)
         for L in range(1, spec["maxlen"]):
